@@ -55,6 +55,9 @@ def analyse(crate):
     for b in crate.bodies:
         if b.kind == "Closure" or b.self_family != "Bv" or b.trait in OP_TRAITS:
             continue
+        from . import storage as _storage
+        if _storage.is_new_private_helper(b):
+            continue        # a dispatch helper introduced after the review is not an API method of Bv
         if (b.impl or {}).get("self", "").startswith("&"):
             pass
         calls = []
